@@ -103,6 +103,7 @@ Definition hdr_checker (valid : list N) : N -> bool := fun h => existsb (N.eqb h
    seen_inputs set against one provider *)
 Record seq_case := mkSeqCase {
   qc_seen : list outpoint;
+  qc_over : list (outpoint * status);      (* OverlayCellProvider: these cells shadow qc_cells *)
   qc_cells : list (outpoint * status);
   qc_headers : list N;
   qc_txs : list tx;
@@ -110,7 +111,8 @@ Record seq_case := mkSeqCase {
 }.
 Definition check_seq (c : seq_case) : bool :=
   list_eqb (opt_eqb (res_eqb rtx_eqb))
-    (map Some (resolve_seq (qc_seen c) (assoc_provider (qc_cells c)) (hdr_checker (qc_headers c)) (qc_txs c)))
+    (map Some (resolve_seq (qc_seen c) (overlay (assoc_provider (qc_over c)) (assoc_provider (qc_cells c)))
+                           (hdr_checker (qc_headers c)) (qc_txs c)))
     (qc_results c).
 
 (* a block resolved like resolve_block_transactions *)
